@@ -323,6 +323,9 @@ def bell_instances():
         ("generic correlator with marginals, +-1 outcomes", np.array([[1.0, 0.5], [-0.25, 2]]), np.array([0.5, -1.0]), np.array([0.25, 0.125]), np.array([1.0, -1]), np.array([1.0, -1])),
         ("Clauser-Horne form, 0/1 outcomes", np.array([[1.0, 1], [1, -1]]), np.array([-1.0, 0]), np.array([-1.0, 0]), np.array([1.0, 0]), np.array([1.0, 0])),
         ("asymmetric values", np.array([[0.5, -1], [2, 0.25]]), np.array([0.0, 0.5]), np.array([1.0, 0]), np.array([1.0, 0]), np.array([-1.0, 1])),
+        # single-party terms for ONE party only (tilted CHSH, both sides)
+        ("tilted CHSH: marginal term on Alice's first setting only, +-1 outcomes", np.array([[1.0, 1], [1, -1]]), np.array([0.5, 0.0]), np.zeros(2), np.array([1.0, -1]), np.array([1.0, -1])),
+        ("marginal terms on Bob only, 0/1 outcomes", np.array([[1.0, -0.5], [0.25, 1]]), np.zeros(2), np.array([0.5, -0.25]), np.array([1.0, 0]), np.array([1.0, 0])),
         # INTEGER arrays for the joint coefficients and the outcome values (as in the docstring), fractional marginal coefficients
         ("integer-typed joint coefficients and outcome values, half-integer marginals", np.array([[1, 2], [2, -1]]), np.array([-1.5, 0.5]), np.array([-0.5, 0.25]),
          np.array([1, 0]), np.array([1, 0])),
@@ -354,6 +357,20 @@ def obligations(tier):
     for name, p, f in xor_instances():
         obs.append(SdpTask("quantum_value.program_is_tsirelson_dual", {"game": name}, (lambda p=p, f=f: XORGame(p, f).quantum_value()), ref_xor, instance=(p, f),
                            value_of=lambda r: 4 * (float(r) - 0.5), tol=1e-3))
+    # the converted game's NPA relaxation (level 1) for rectangular question sets: every deterministic strategy is a feasible
+    # point with its own value, and the generated constraints imply a non-signalling box (certificates of props/c07.py, run on
+    # the game object XORGame.to_nonlocal_game() returns)
+    from props.c07 import NpaTask
+    for name, p, f in xor_instances():
+        q0, q1 = p.shape
+        if q0 == q1 and not T:
+            continue
+
+        def conv(p=p, f=f):
+            g = XORGame(p, f).to_nonlocal_game()
+            return np.asarray(g.prob_mat, dtype=float), np.asarray(g.pred_mat, dtype=float)
+        for kind in ("classical_le_npa", "npa_implies_ns"):
+            obs.append(NpaTask((2, 2, q0, q1), 1, kind, game=conv, game_name="converted XOR game: " + name))
     for inst in bell_instances():
         name = inst[0]
         t = SdpTask("bell_inequality_max.program_is_ppt_constrained_bell_operator_maximisation", {"inequality": name},
